@@ -4,10 +4,6 @@ From ApolloVerif Require Import Base.Chars Lex.Item Parse.Outcome Parse.Builder 
   Parse.Grammar Parse.Generic Parse.Entry Parse.LosslessDefs Parse.Lossless Parse.TrackerInst Parse.SilentInst
   Parse.PulledInst.
 
-Definition Known_D3 (r : presult) : Prop := ne (map tok_data (pr_dropped r)) <> [].
-Lemma not_known r : ~ Known_D3 r -> ne (map tok_data (pr_dropped r)) = [].
-Proof. unfold Known_D3. destruct (ne _); [reflexivity|]. intros H. exfalso. apply H. discriminate. Qed.
-
 Inductive entry := EDoc | ESelSet | EType.
 Definition run (e : entry) : bool -> N -> list item -> poutcome presult :=
   match e with
@@ -21,7 +17,7 @@ Theorem C04_prefix : forall e dbg rl items r,
   Forall item_name_ok items -> run e dbg rl items = POk r -> ~ Known_D3 r ->
   exists suf, p_text_of (pr_tree r) ++ suf = concat (map item_data items).
 Proof.
-  intros e dbg rl items r Hn E Hk. apply not_known in Hk.
+  intros e dbg rl items r Hn E Hk. apply not_known_D3 in Hk.
   destruct e; [eapply document_prefix|eapply selection_set_prefix|eapply type_prefix]; eauto.
 Qed.
 Check C04_prefix : forall e dbg rl items r,
